@@ -57,7 +57,7 @@ SYM = {'mul': '*', 'div': '/', 'add': '+', 'sub': '-', 'leq': '<=', 'geq': '>=',
        'historically': 'historically', 'once': 'once', 'prev': 'prev', 'next': 'next', 's_prev': 's_prev', 's_next': 's_next', 'neg': '-'}
 
 
-def _spec(front, txt, vs):
+def _spec(front, txt, vs, period=None):
     if front == 'ltl':
         from rtamt.spec.abstract_specification import AbstractOfflineSpecification
         from rtamt.syntax.ast.parser.ltl.specification_parser import LtlAst
@@ -68,10 +68,10 @@ def _spec(front, txt, vs):
         s.spec = txt
         s.parse()
         return s
-    return dt.make_spec('combined', txt, vs)
+    return dt.make_spec('combined', txt, vs, period=period)
 
 
-def h_variant(f, canon, variant, N, online=False, front='stl'):
+def h_variant(f, canon, variant, N, online=False, front='stl', period=None):
     """f: intended AST (oracle); canon / variant: full specification texts"""
     f = T(f)
     vs = sorted(variables(f))
@@ -79,16 +79,16 @@ def h_variant(f, canon, variant, N, online=False, front='stl'):
     def body(env):
         A = env.A
         w = dt.trace(env, vs, N)
-        sc = _spec('stl', canon, vs)
-        sv = _spec(front, variant, vs)          # a variant that does not parse does not denote the same monitor: the exception is the finding
+        sc = _spec('stl', canon, vs, period)
+        sv = _spec(front, variant, vs, period)          # a variant that does not parse does not denote the same monitor: the exception is the finding
         gc = [p[1] for p in dt.offline(sc, w, N)]
         gv = [p[1] for p in dt.offline(sv, w, N)]
         env.observe('variant', gv)
         ref = rho(A, f, w, N)
         res = dt.eq_list(A, 'variant', gv, gc) + dt.eq_list(A, 'rho', gv, ref)
         if online:
-            oc = dt.online(_spec('stl', canon, vs), w, N)
-            ov = dt.online(_spec('stl', variant, vs), w, N)
+            oc = dt.online(_spec('stl', canon, vs, period), w, N)
+            ov = dt.online(_spec('stl', variant, vs, period), w, N)
             res += dt.eq_list(A, 'variant-online', ov, oc) + dt.eq_list(A, 'rho-online', ov, ref)
         return res
     return body
@@ -198,6 +198,12 @@ def obligations(tier, rng):
         for itv in ['[%ds,%ds]' % (a, b), '[%ds,%dms]' % (a, b * 1000), '[%dms,%ds]' % (a * 1000, b), '[%d,%ds]' % (a, b),
                     '[%d,%dms]' % (a * 1000, b * 1000), '[%dms,%d]' % (a * 1000, b * 1000), '[%ds,%d]' % (a, b), '[%dus,%d]' % (a * 10 ** 6, b * 10 ** 6)]:
             add('unless-sugar-units', f, 'out = ' + text(f), 'out = (x) unless%s (y)' % itv)
+    # ... and with bounds that are fractions of the unit they are written in (sampling period 500 ms; f has the bounds in samples)
+    for (ta, tb), (a, b) in [(('0.5', '1.5'), (1, 3)), (('0.5s', '1.5s'), (1, 3)), (('1', '2.5'), (2, 5)), (('0', '0.5'), (0, 1))]:
+        f = ('or', ('always_t', X, 0, b), ('until_t', X, Y, a, b))
+        canon = 'out = (always[0,%s](x)) or ((x) until[%s,%s] (y))' % (tb, ta, tb)
+        out.append(ob('C15', 'variant', 'unless-sugar-fraction/out = (x) unless[%s,%s] (y)  ~  %s' % (ta, tb, canon), f=f, canon=canon,
+                      variant='out = (x) unless[%s,%s] (y)' % (ta, tb), N=N + 2, online=False, front='stl', period=[500, 'ms']))
     # one-sided units on the other bounded operators: the bound without a unit takes the unit of the other bound
     for k, fmt in [('once_t', 'once%s(x)'), ('always_t', 'always%s(x)'), ('since_t', '(x) since%s (y)'), ('until_t', '(x) until%s (y)'), ('historically_t', 'H%s x'),
                    ('eventually_t', 'F%s x')]:
